@@ -169,6 +169,12 @@ func (g *semGen) stmt(c *semCtx) string {
 		return g.name() + " = " + g.expr(*c, d)
 	case k < 9:
 		g.note("var")
+		switch g.r.Intn(6) {
+		case 0: // several names, one list value: every name is bound here
+			return "var " + g.name() + ", " + g.name() + " = [" + g.expr(*c, 1) + ", " + g.atom() + "]"
+		case 1: // several names, several values
+			return "var " + g.name() + ", " + g.name() + " = " + g.expr(*c, 1) + ", " + g.atom()
+		}
 		return "var " + g.name() + " = " + g.expr(*c, d)
 	case k < 13:
 		g.note("read")
